@@ -25,7 +25,8 @@ def plan(tier, seed):
     pl.cases = H.simplify_cases() + H.semantic_cases()
     pl.canaries = []
     pl.finite = [("C05-H/is_must-is_should table", H.kind_table), ("C05-H/yield_nested_children table", H.clash_table),
-                 ("C05-H/json assembly of bool / nested clauses", H.ejson_table)]
+                 ("C05-H/json assembly of bool / nested clauses", H.ejson_table),
+                 ("C05-N/one step of visit_search_field: field context and nested wrapper", H.search_field_table)]
     n = 2 if tier == "quick" else 4
 
     def sem():
